@@ -4,7 +4,8 @@ from fractions import Fraction as F
 from mc.lattice import cube
 from mc.oracle import css_color, wcag
 
-ALPHAS = ["0", "0.004", "0.01", "0.25", "0.5", "0.75", "0.99", "0.996", "1", ".5", ".8", "0.50", "1.0", "0.0"]
+ALPHAS = ["0", "0.004", "0.01", "0.25", "0.5", "0.75", "0.99", "0.996", "1", ".5", ".8", "0.50", "1.0", "0.0",
+          "1e-05", "5e-1", "1E-2", "0.00001", "0.99999"]   # str() of a small float is in exponent notation, which CSS numbers allow
 HSL_FG = ["hsla(210, 65%%, 20%%, %s)", "hsla(0, 100%%, 50%%, %s)", "hsla(120, 40%%, 75%%, %s)", "hsla(300, 10%%, 5%%, %s)",
           "hsla(48, 90%%, 60%%, %s)", "hsla(-90, 55%%, 35%%, %s)"]
 
@@ -16,8 +17,8 @@ def bgs(phase):
 
 def _exact_fg(spell_kind, fg, a_txt):
     if spell_kind == "hsla":
-        r, g, b, a = css_color.parse(fg % a_txt)
-        return (r, g, b), a
+        r, g, b, _a = css_color.parse(fg % "0.5")   # the colour from the reference parser, the alpha from its own text
+        return (r, g, b), F(a_txt)                   # (a CSS number may use exponent notation; Fraction reads it exactly)
     return tuple(F(x) for x in fg), F(a_txt)
 
 
